@@ -4,7 +4,7 @@ From Coq Require Import List NArith Lia Bool Arith.
 From Coq.Strings Require Import Byte.
 From RecordUpdate Require Import RecordUpdate.
 From Coq Require Import ZArith.
-From L3 Require Import Ber BerFixed Utf8 Frame FrameFixed Msgid Conn ConnNoWrap.
+From L3 Require Import Ber BerFixed Utf8 Frame FrameSpec FrameFixed Msgid Conn ConnAccount ConnNoWrap ConnWire.
 Import ListNotations.
 Open Scope N_scope.
 
@@ -34,8 +34,23 @@ Proof. exact BerFixed.c11_repairs_reject_nothing_valid. Qed.
 Theorem c11_driver_never_panics : forall (s : st) (e : ev), fix5 (fx s) = true -> drv s <> EndedPanic -> e <> DrvEnd EndedPanic -> drv (step s e) <> EndedPanic.
 Proof. exact ConnNoWrap.c11_driver_never_panics. Qed.
 
+(* the two models composed (ConnWire: what tokio-util's Framed yields from the bytes becomes the driver's events): whatever the bytes and
+   however they are cut into reads, the driver is never handed a panic *)
+Theorem c11_bytes_never_panic : forall (m : nat) (chunks : list (list byte)), ~ In (DrvEnd EndedPanic) (receive m chunks).
+Proof. exact ConnWire.c11_bytes_never_panic. Qed.
+
+(* input that is not a well-formed LDAPMessage envelope ends the connection with an error that every pending operation observes:
+   in any reachable state of the connection (pre), whatever happens afterwards (post), no reply channel is left empty, no item channel open *)
+Theorem c11_undecodable_ends_connection : forall (f : fixes) (pre : list ev) (m : nat) (chunks : list (list byte)) (post : list ev) (o : nat) (c : cop),
+  Forall proper pre -> Forall proper post -> In EvError (framed_run (decode_inner' (repaired_d m)) [] chunks) ->
+  let s := run f (pre ++ receive m chunks ++ post) in
+  is_running s = false /\ (getop s o = Some c -> o_reply c <> OsEmpty /\ o_chan c = false).
+Proof. exact ConnWire.c11_undecodable_ends_connection. Qed.
+
 Print Assumptions c11_decode_no_panic.
 Print Assumptions c11_driver_never_panics.
 Print Assumptions c11_decode_no_wedge.
 Print Assumptions c11_depth_bounded.
 Print Assumptions c11_repairs_reject_nothing_valid.
+Print Assumptions c11_bytes_never_panic.
+Print Assumptions c11_undecodable_ends_connection.
